@@ -236,6 +236,7 @@ Definition hash_poly (c : content) : Hsh :=
   end%N.
 
 Definition dev_cfg : cfg := {| force := false; dev_rehash := true; clean_build := false |}.
+Definition release_cfg : cfg := {| force := false; dev_rehash := false; clean_build := true |}.
 
 Fixpoint lookup_run (p : N) (l : list (N * bool)) : option bool :=
   match l with [] => None | (q, b) :: r => if N.eqb p q then Some b else lookup_run p r end.
